@@ -95,6 +95,22 @@ KERNELS.append(dict(name="K_iter_eff", file=F, cxx_name="iterate_efficiencies(De
                            (r"denominator \+= efficiencies\[(\w+)\]\[([^\]]+)\] \* model\(([^;]*)\);", r"EFF_ACCUM(\1, \2, \3);", 1),
                            (r"efficiencies\[ra\]\[a\] = data_fan_sums\[ra\]\[a\] / denominator;", "EFF_SET(ra, a, 1);", 1),
                            (r"float denominator = 0;", "", 1)]))
+KERNELS.append(dict(name="K_make_block_data", file=F, cxx_name="make_block_data(BlockData3D&, const FanProjData&): accumulation loops (statement kernel)",
+                    func=r"make_block_data\(BlockData3D& block_data, const FanProjData& fan_data\)",
+                    span=(r"block_data\.fill\(0\);", r"\+= fan_data\(ra, a, rb, b\);\s*\}"),
+                    c_header="void K_make_block_data(const struct FAN* self, const int num_axial_crystals_per_block, const int num_transaxial_crystals_per_block)", loops=4,
+                    rules=[(r"block_data\.fill\(0\);", "BLK_FILL0();", 1),
+                           (r"fan_data\.get_min_ra\(\)", "0", 1), (r"fan_data\.get_max_ra\(\)", "(self->num_rings - 1)", 1), (r"fan_data\.get_min_a\(\)", "0", 1),
+                           (r"fan_data\.get_max_a\(\)", "(self->num_detectors_per_ring - 1)", 1), (r"fan_data\.get_min_rb\(ra\)", "K_fan_get_min_rb(self, ra)", 1),
+                           (r"fan_data\.get_max_rb\(ra\)", "FAN_RB_MAX(self, ra, 0)", 1), (r"fan_data\.get_min_b\(a\)", "FAN_MIN_B(self, a)", 1), (r"fan_data\.get_max_b\(a\)", "FAN_MAX_B(self, a)", 1),
+                           (r"(?<![\w.])max\(", "K_max_int(", 1),
+                           (r"block_data\(([^,;]+),\s*([^,;]+),\s*([^,;]+),\s*([^,;()]+)\)\s*\+= fan_data\(([^;]*)\);", r"BLK_ACCUM(\1, \2, \3, \4, \5);", 1)]))
+KERNELS.append(dict(name="K_fan_sum", file=F, cxx_name="FanProjData::sum(const int ra, const int a) const", func=r"FanProjData::sum\(const int ra, const int a\) const",
+                    c_header="float K_fan_sum(const struct FAN* self, const int ra, const int a)", loops=2,
+                    rules=[(r"(?<![\w.>])get_min_rb\(ra\)", "K_fan_get_min_rb(self, ra)", 1), (r"(?<![\w.>])get_max_rb\(ra\)", "FAN_RB_MAX(self, ra, 0)", 1),
+                           (r"(?<![\w.>])get_min_b\(a\)", "FAN_MIN_B(self, a)", 1), (r"(?<![\w.>])get_max_b\(a\)", "FAN_MAX_B(self, a)", 1),
+                           (r"(?<![\w.>])num_detectors_per_ring\b", "self->num_detectors_per_ring", 1),
+                           (r"sum \+= \(\*this\)\(([^;]*)\);", r"SUM_ACCUM(\1);", 1)]))
 # FanProjData range accessors (get_min/max_rb, get_min/max_b, get_min/max_a, get_min/max_ra): what the library's loops iterate over
 def ACC(name, sig, header):
     return dict(name=name, file=F, cxx_name="FanProjData::" + sig, func=r"FanProjData::" + re.escape(sig).replace("\\ ", " ") + r" const", c_header=header, loops=0, contract_alias=name,
@@ -192,6 +208,12 @@ def jobs(tier, gen_dir):
           defs={"C20_N": N}, params={"num_detectors_per_ring": N})
     out.append(Job("c20/canary/K_iter_eff", HARNESS, "h_K_iter_eff", enforce="K_iter_eff", replace=RD + ["EFF_DATA_ZERO"], kernels=["K_iter_eff"], kind="canary", loop_contracts=True,
                    defines={"CANARY_K_iter_eff": None, "C20_N": 8}, expect_fail=r"K_iter_eff\.postcondition", no_base_flags=True, timeout=300, backend="kissat", object_bits=12))
+    for (ct, vt, ca, va) in BLOCKS[tier][:4]:
+        J("K_make_block_data/C=%d,%d" % (ct, ca), "h_K_make_block_data", enforce="K_make_block_data", repl=RD, kernels=["K_make_block_data"], loop_contracts=True, object_bits=12, timeout=900,
+          defs={"C20_CT": ct, "C20_CA": ca}, params={"transaxial crystals/block": ct, "axial crystals/block": ca})
+    out.append(Job("c20/canary/K_make_block_data", HARNESS, "h_K_make_block_data", enforce="K_make_block_data", replace=RD, kernels=["K_make_block_data"], kind="canary", loop_contracts=True,
+                   defines={"CANARY_K_make_block_data": None, "C20_CT": 8, "C20_CA": 8}, expect_fail=r"K_make_block_data\.postcondition", no_base_flags=True, timeout=300, backend="kissat", object_bits=12))
+    J("K_fan_sum", "h_K_fan_sum", enforce="K_fan_sum", repl=RD, kernels=["K_fan_sum"], loop_contracts=True, object_bits=12, timeout=600)
     for k in ("K_fan_get_max_rb", "K_fan_get_min_rb_acc", "K_fan_get_min_b", "K_fan_get_max_b", "K_fan_get_max_a", "K_fan_get_max_ra"):
         J(k, "h_" + k, enforce=k, kernels=[k], min_obligations=2)
     GRD = ["GEO_MIN_B", "GEO_MAX_B", "GEO_RB_MIN", "GEO_RB_MAX"]
@@ -213,8 +235,8 @@ TRUSTED = ["index ranges of FanProjData: the readers FAN_MIN_B/FAN_MAX_B/FAN_RB_
            "get_det_pair_for_bin / get_bin_for_det_pair are decided under C01"]
 ASSUMPTIONS = ["parametric: crystals per block / virtual crystals per block are constants per job; crystal and ring numbers < 100000"]
 UNDECIDED_CLAUSES = ["that dividing by a factor undoes multiplying by it (float rounding); the geometric factors' rotation / mirror map inside apply_geo_norm",
-                     "fixed point of iterate_efficiencies, of the make_geo_data / make_block_data sums around the element update, and Kullback-Leibler descent of the ML iterations", "the loops of make_fan_data_remove_gaps_help / set_fan_data_add_gaps_help around the index maps",
-                     "BlockData3D / DetPairData classes (same pattern as FanProjData / GeoData3D, not under contract)"]
+                     "fixed point of iterate_efficiencies, the make_geo_data symmetrisation / rotation sums, the float values of the sums (only which elements enter make_block_data and FanProjData::sum is decided), and Kullback-Leibler descent of the ML iterations", "the loops of make_fan_data_remove_gaps_help / set_fan_data_add_gaps_help around the index maps",
+                     "the 2D classes DetPairData / GeoData / BlockData (same pattern as FanProjData / GeoData3D, not under contract; BlockData3D is a typedef of FanProjData)"]
 
 
 def param_summary(tier):
